@@ -180,6 +180,8 @@ def run(ctx, chk):
     n = sweep(ctx, chk, "C05", modes=(True, False))
     chk.floor("C05", n, 8000, "single-meaning month/weekday names x NORMALIZE modes examined")
     code_rules(ctx, chk)
+    from .c08 import token_conservation_rule
+    token_conservation_rule(ctx, chk, "C05.R6")     # 'D <month name> YYYY' under a YMD locale relies on the displaced-token hand-over
     chk.sample({"rule": "C05", "example": "fr: probe '5 sept 2015' is rewritten to '5 7 2015' by the simplification sept->7"})
     chk.assume("translation only maps dictionary keys; an untranslated token makes the locale inapplicable (so S-A is a necessary condition)")
 
